@@ -110,6 +110,11 @@ func genC18Case(t *rapid.T) *C18Case {
 			b.RePats[item] = p.pat
 			b.Rules = append(b.Rules, item)
 		default:
+			if rapid.IntRange(0, 5).Draw(t, "blankArg") == 0 {
+				// arguments (and names) with leading / trailing blanks are taken literally by every entry point
+				b.Rules = append(b.Rules, rapid.SampledFrom([]string{"ints= ", "suffix=0 ", "prefix= 1", "date= ", " le=2", "ge=1 ", "in=( a/b )", "include=(a /b)"}).Draw(t, "blankRule"))
+				break
+			}
 			b.Rules = append(b.Rules, rapid.SampledFrom([]string{"int", "float", "phone", "email", "date", "ipv4", "json"}).Draw(t, "fmtRule")+mg.next(t))
 		}
 	}
